@@ -12,7 +12,6 @@ Files are written below a fresh directory made with tempfile.mkdtemp(dir="/tmp")
 marker @ROOT@ inside a text stands for the absolute name of the per-run directory.
 """
 import atexit
-import inspect
 import itertools
 import json
 import os
@@ -83,7 +82,19 @@ def materialise(case):
     return base
 
 
+def frame_depth():
+    f = sys._getframe()
+    n = 0
+    while f is not None:
+        n += 1
+        f = f.f_back
+    return n
+
+
 def strip_base(p, base):
+    """name below the per-run directory; "//x" (which normpath keeps) is the file "/x" """
+    if p.startswith("//") and not p.startswith("///"):
+        p = p[1:]
     return p[len(base):] if p.startswith(base + "/") else p
 
 
@@ -95,6 +106,8 @@ def err_obs(e, base):
     cls = exc_class(e)
     if isinstance(e, OSError):
         return ["err", "other:OSError", "", "0", []]
+    if isinstance(e, RecursionError):  # a RuntimeError subclass, but never a deliberate refusal
+        return ["err", "other:RecursionError", "", "0", []]
     msg = str(e)
     if cls == "RuntimeError" and msg.startswith(CYCLE_PREFIX):
         chain = [strip_base(p, base) for p in msg[len(CYCLE_PREFIX):].split(", ")]
@@ -214,7 +227,7 @@ class Paths(Stream):
         cw = sorted(CWDS)
         for i, p in enumerate(pool):
             yield [cw[i % 3], p, pool[rng.randrange(min(len(pool), 400))]]
-        for i in range(12000 if tier == "quick" else 60000):
+        for i in range(12000 if tier == "quick" else 40000):
             p = "".join(rng.choice(PATH_ALPHA) for _ in range(rng.randint(maxlen + 1, 14)))
             q = "".join(rng.choice(PATH_ALPHA) for _ in range(rng.randint(0, 5)))
             yield [cw[i % 3], p, q]
@@ -273,7 +286,7 @@ class IncludeStream(Stream):
             os.chdir(base + "/" + cwd_rel)
             # legitimate nesting here is a handful of files deep; a low limit makes an unbounded
             # include recursion show up as RecursionError at once instead of after 10^4 frames
-            sys.setrecursionlimit(min(lim, len(inspect.stack(0)) + 600))
+            sys.setrecursionlimit(min(lim, frame_depth() + 200))
             try:
                 if case["mode"] == "abs":
                     t = fp.parse(file_name=root, process_includes=True)
@@ -329,26 +342,32 @@ class IncludeStream(Stream):
         return tab
 
     def requests(self, case, o):
+        """one request per case: the file table once, one call per current directory"""
         base = base_dir()
         tab = self.table(case, base)
-        reqs = []
+        root = base + "/" + case["root"]
+        mode = "f"
+        calls = []
         for cwd_rel in case["cwd"]:
             cwd = base + "/" + cwd_rel
             if case["mode"] == "abs":
-                reqs.append(("includes", [cwd, "f", base + "/" + case["root"], tab]))
+                calls.append([cwd, root])
             elif case["mode"] == "rel":
-                reqs.append(("includes", [cwd, "f", os.path.relpath(base + "/" + case["root"], cwd), tab]))
+                calls.append([cwd, os.path.relpath(root, cwd)])
             else:
-                ent = [e for p, e in tab if p == base + "/" + case["root"]][0]
+                ent = [e for p, e in tab if p == root][0]
                 if ent[0] != "ok":
-                    reqs.append(("includes", [cwd, "f", base + "/" + case["root"], tab]))  # parse error of the root text
+                    calls.append([cwd, root])       # the root text does not parse: same refusal as for the file
                 else:
-                    reqs.append(("includes", [cwd, "s", ent[1], tab]))
-        return reqs
+                    mode = "s"
+                    calls.append([cwd, ent[1]])
+        return [("includes", [mode, calls, tab])]
 
     def model(self, case, replies, o):
         base = base_dir()
-        ms = [model_obs(r, base) for r in replies]
+        if replies[0] == ["badinput"]:
+            return ["model:badinput"]
+        ms = [model_obs(r, base) for r in replies[0]]
         if "UNMODELLED" in ms:
             return "UNMODELLED"
         return [ms[0], ms[1], o[2]]
@@ -388,7 +407,10 @@ def spell(rng, includer, target):
     """a way of writing `target` in an include line of `includer` (all directories named exist)"""
     d = posixpath.dirname(includer)
     rel = posixpath.relpath(target, d)
-    k = rng.randrange(8)
+    k = rng.randrange(17)
+    if k == 16:
+        return "/" + MARK + "/" + target                            # "//tmp/...": same file, another name
+    k = k % 8
     if k <= 2:
         return rel
     if k == 3:
@@ -466,7 +488,7 @@ class Graphs(IncludeStream):
             for _ in range(30000):
                 incs = [tuple(rng.randrange(4) for _ in range(rng.choice([0, 1, 1, 2, 2, 3]))) for _ in range(4)]
                 yield graph_case(rng, FILES4, incs)
-            yield from self.dags(rng, 3000)
+            yield from self.dags(rng, 2000)
 
     def dags(self, rng, n):
         """acyclic graphs over 4 files (includes point to later files only): chains and diamonds,
@@ -529,7 +551,8 @@ class Malformed(IncludeStream):
                  "include $t sub/b.phil", "include file nonexist.phil", "include file sub", 'include file ""',
                  "include scope", "include scope a b c d", "include scope a b c", "include scope nonexisting.module.x",
                  "include file sub/b.phil; x = 1", "x = 1; include file sub/b.phil; y = 2", "include file a.phil",
-                 "include file ../root/a.phil", "include\nfile sub/b.phil", "include file \\\n sub/b.phil",
+                 "include file ../root/a.phil", "include file /@ROOT@/root/a.phil", "include file /@ROOT@/root/sub/b.phil",
+                 "include file //@ROOT@/root/sub/b.phil", "include\nfile sub/b.phil", "include file \\\n sub/b.phil",
                  "include file sub/b.phil # comment", "include.x = 1", "include {\n}", "x.include = 1"]
         for l in lines:
             yield self.mk("p = 0\n" + l + "\nq = 1\n")
@@ -548,7 +571,7 @@ class Malformed(IncludeStream):
         return list(self.fixed())
 
     def cases(self, rng, tier):
-        n = 1500 if tier == "quick" else 20000
+        n = 1500 if tier == "quick" else 10000
         for _ in range(n):
             def line():
                 if rng.randrange(3) == 0:
